@@ -78,10 +78,16 @@ func isProtoMsg(t types.Type) *types.Named {
 
 // protoAssignments collects, per function, proto message type → field → source expression
 // (composite literal keys plus later `x.F = e` assignments on a value of that message type).
+// guardGaps (package-level result of the last protoAssignments call per package): for a guarded assignment of a proto field,
+// the fields of a source variable that the guarded block encodes but the guard does not examine.
+var guardGaps = map[*PkgIndex]map[string]string{}
+
 func protoAssignments(ix *PkgIndex) (map[string]map[string]string, map[string]string) {
 	info := ix.Pkg.TypesInfo
 	out := map[string]map[string]string{}
 	guards := map[string]string{}
+	gaps := map[string]string{}
+	guardGaps[ix] = gaps
 	var curFn *FuncInfo
 	put := func(msg, fld string, e ast.Expr) {
 		if out[msg] == nil {
@@ -105,6 +111,13 @@ func protoAssignments(ix *PkgIndex) (map[string]map[string]string, map[string]st
 					for _, el := range x.Elts {
 						if kv, ok := el.(*ast.KeyValueExpr); ok {
 							put(m.Obj().Name(), kv.Key.(*ast.Ident).Name, kv.Value)
+							// an optional value produced by a helper that returns nil exactly when its argument's Value() reports
+							// "not set": the field is guarded by that flag
+							if call, ok := unparen(kv.Value).(*ast.CallExpr); ok && len(call.Args) == 1 {
+								if h := ix.declByObj(callee(info, call)); h != nil && optionalValueHelper(ix, h) {
+									guards[m.Obj().Name()+"."+kv.Key.(*ast.Ident).Name] = exprStr(call.Args[0]) + ".Value()"
+								}
+							}
 						}
 					}
 				}
@@ -132,6 +145,9 @@ func protoAssignments(ix *PkgIndex) (map[string]map[string]string, map[string]st
 							// the guard under which this later assignment happens (innermost enclosing if in this function)
 							if g := enclosingIfCond(f, x); g != nil {
 								guards[m.Obj().Name()+"."+sel.Sel.Name] = expandExpr(info, f, g, 0)
+								if gap := guardGap(info, g, r); gap != "" {
+									gaps[m.Obj().Name()+"."+sel.Sel.Name] = gap
+								}
 							}
 						}
 					}
@@ -417,6 +433,19 @@ func c13Copy(c *Ctx, ix *PkgIndex, xc xformCopy) []string {
 		for _, k := range gk {
 			facts = append(facts, "guard "+k+" if "+guards[k])
 		}
+		// a guard that decides on part of a value while the guarded encoding carries more of it drops the rest
+		{
+			var gk2 []string
+			for k := range guards {
+				gk2 = append(gk2, k)
+			}
+			sort.Strings(gk2)
+			for _, k := range gk2 {
+				gap := guardGaps[ix][k]
+				c.Check(gap == "", "R2", sp+"|"+k+"|the guard examines everything the guarded encoding reads", site, "guard: "+guards[k],
+					k+" is encoded only if ("+guards[k]+") but carries "+gap+" as well: a value that differs from the zero value only there is exported without it (e.g. an unnamed scope with a version or attributes loses its identity)")
+			}
+		}
 		// optional extrema are present exactly when the SDK says so
 		for _, gm := range []struct{ key, must string }{
 			{"HistogramDataPoint.Min", "Min.Value()"}, {"HistogramDataPoint.Max", "Max.Value()"},
@@ -684,25 +713,14 @@ func c13Copy(c *Ctx, ix *PkgIndex, xc xformCopy) []string {
 			return
 		}
 		g := ix.FG(fn)
-		apps := g.Match(func(n ast.Node) bool {
-			as, ok := n.(*ast.AssignStmt)
-			if !ok || len(as.Rhs) != 1 {
-				return false
-			}
-			call, ok := unparen(as.Rhs[0]).(*ast.CallExpr)
-			if !ok || builtinName(info, call) != "append" || len(call.Args) != 2 {
-				return false
-			}
-			if callName == "" {
-				return true
-			}
-			// appended value is (or comes from) callName(…)
-			if inner, ok := unparen(call.Args[1]).(*ast.CallExpr); ok {
+		// is e the encoded item: callName(…) or a local assigned from it?
+		isEncoded := func(e ast.Expr) bool {
+			if inner, ok := unparen(e).(*ast.CallExpr); ok {
 				if cf := callee(info, inner); cf != nil && cf.Name() == callName {
 					return true
 				}
 			}
-			if v := objOf(info, call.Args[1]); v != nil {
+			if v := objOf(info, e); v != nil {
 				hit := false
 				inspectNoLit(fn.Body(), func(m ast.Node) bool {
 					if as2, ok := m.(*ast.AssignStmt); ok && len(as2.Rhs) == 1 {
@@ -721,14 +739,39 @@ func c13Copy(c *Ctx, ix *PkgIndex, xc xformCopy) []string {
 				return hit
 			}
 			return false
+		}
+		// the vertices at which an item enters the output: X = append(X, item) or a slice literal {item} (a group created with
+		// its first element)
+		apps := g.Match(func(n ast.Node) bool {
+			switch s := n.(type) {
+			case *ast.AssignStmt:
+				if len(s.Rhs) != 1 {
+					return false
+				}
+				call, ok := unparen(s.Rhs[0]).(*ast.CallExpr)
+				if !ok || builtinName(info, call) != "append" || len(call.Args) != 2 {
+					return false
+				}
+				return callName == "" || isEncoded(call.Args[1])
+			case *ast.CompositeLit:
+				if callName == "" {
+					return false
+				}
+				if _, isSlice := info.Types[s].Type.Underlying().(*types.Slice); !isSlice || len(s.Elts) != 1 {
+					return false
+				}
+				return isEncoded(s.Elts[0])
+			}
+			return false
 		})
 		key := sp + "|" + fname + "|every item appended once per iteration"
-		if len(apps) != 1 {
-			c.Violation("R4", key, at(ix.M, fn.Pos()), "expected exactly one append of "+callName+"(item) in the loop, found "+itoa(len(apps)))
+		if len(apps) < 1 {
+			c.Violation("R4", key, at(ix.M, fn.Pos()), "no append of "+callName+"(item) found in the loop")
 			return
 		}
+		through := toSet(apps)
 		x := apps[0]
-		// negative form: from the loop body head, the loop head / exit is reachable without the append only across an allowed skip edge
+		// negative form: from the loop body head, the loop head / exit is reachable without an append only across an allowed skip edge
 		var body *GNode
 		for b, h := range g.head {
 			if k := b.Kind.String(); (k == "RangeBody" || k == "ForBody") && b.Stmt != nil && b.Stmt.Pos() <= x.N.Pos() && x.N.End() <= b.Stmt.End() {
@@ -742,15 +785,29 @@ func c13Copy(c *Ctx, ix *PkgIndex, xc xformCopy) []string {
 			return
 		}
 		loopStmt := body.Blk.Stmt
-		seen, par := g.Reach([]*GNode{body}, func(y *GNode) bool { return y == x }, func(e *GEdge) bool { return edgeImplies(e, skipOK) })
+		isLoopEdge := func(y *GNode) bool {
+			if y.N == nil && y.Blk != nil && y.Blk.Stmt == loopStmt {
+				k := y.Blk.Kind.String()
+				return k == "RangeLoop" || k == "RangeDone" || k == "ForLoop" || k == "ForDone" || k == "ForPost"
+			}
+			return false
+		}
+		seen, par := g.Reach([]*GNode{body}, func(y *GNode) bool { return through[y] }, func(e *GEdge) bool { return edgeImplies(e, skipOK) })
 		bad := ""
 		for y := range seen {
 			if y == g.Exit {
 				bad = "an iteration can return before the append: " + g.pathLines(par, y)
 			}
-			if y.N == nil && y.Blk != nil && y.Blk.Stmt == loopStmt {
-				if k := y.Blk.Kind.String(); k == "RangeLoop" || k == "RangeDone" || k == "ForLoop" || k == "ForDone" || k == "ForPost" {
-					bad = "an iteration can skip the append: " + g.pathLines(par, y)
+			if isLoopEdge(y) {
+				bad = "an iteration can skip the append: " + g.pathLines(par, y)
+			}
+		}
+		// at most once per iteration: from one append no other (nor itself) is reached before the iteration ends
+		for _, a := range apps {
+			s2, _ := g.Reach([]*GNode{a}, isLoopEdge, nil)
+			for y := range s2 {
+				if through[y] {
+					bad = "an item can be appended twice in one iteration (" + ix.M.posStr(a.N.Pos()) + " then " + ix.M.posStr(y.N.Pos()) + ")"
 				}
 			}
 		}
@@ -1042,4 +1099,144 @@ func expandExpr(info *types.Info, fn *FuncInfo, e ast.Expr, depth int) string {
 		return exprStr(e)
 	}
 	return render(e, depth)
+}
+
+// optionalValueHelper: h(e) with `v, ok := e.Value()` returns nil on every path where ok is false and, where ok is true, the
+// address of a fresh local holding v (possibly converted); nothing else.
+func optionalValueHelper(ix *PkgIndex, h *FuncInfo) bool {
+	info := ix.Pkg.TypesInfo
+	sig := h.Obj.Type().(*types.Signature)
+	if sig.Params().Len() != 1 || sig.Results().Len() != 1 {
+		return false
+	}
+	if _, isPtr := sig.Results().At(0).Type().Underlying().(*types.Pointer); !isPtr {
+		return false
+	}
+	p := sig.Params().At(0)
+	var v, okv types.Object
+	inspectNoLit(h.Body(), func(n ast.Node) bool {
+		if as, ok := n.(*ast.AssignStmt); ok && len(as.Lhs) == 2 && len(as.Rhs) == 1 {
+			if call, ok := unparen(as.Rhs[0]).(*ast.CallExpr); ok {
+				if recv, m := methodCall(info, call); m != nil && m.Name() == "Value" && sameVar(info, recv, p) {
+					v, okv = objOf(info, as.Lhs[0]), objOf(info, as.Lhs[1])
+				}
+			}
+		}
+		return true
+	})
+	if v == nil || okv == nil {
+		return false
+	}
+	g := ix.FG(h)
+	edge := func(pol int) func(*GEdge) bool {
+		return func(e *GEdge) bool {
+			return edgeImplies(e, func(cnd ast.Expr, p int) bool { return p == pol && sameVar(info, cnd, okv) })
+		}
+	}
+	n := 0
+	for _, x := range g.Nodes {
+		rs, isRet := x.N.(*ast.ReturnStmt)
+		if !isRet {
+			continue
+		}
+		n++
+		if len(rs.Results) != 1 {
+			return false
+		}
+		r := unparen(rs.Results[0])
+		unset, _ := g.DominatedByEdges(x, edge(-1))
+		set, _ := g.DominatedByEdges(x, edge(1))
+		switch {
+		case unset:
+			if !isNilIdent(info, r) {
+				return false
+			}
+		case set:
+			u, ok := r.(*ast.UnaryExpr)
+			if !ok || u.Op != token.AND {
+				return false
+			}
+			loc := objOf(info, u.X)
+			// the local's only assignment (its address is taken, so it is not a LocalDef)
+			var def ast.Expr
+			nAssign := 0
+			inspectNoLit(h.Body(), func(m ast.Node) bool {
+				if as, ok := m.(*ast.AssignStmt); ok && len(as.Lhs) == len(as.Rhs) {
+					for i, l := range as.Lhs {
+						if loc != nil && objOf(info, l) == loc {
+							nAssign++
+							def = as.Rhs[i]
+						}
+					}
+				}
+				return true
+			})
+			if def == nil || nAssign != 1 {
+				return false
+			}
+			d := unparen(def)
+			if conv, ok := d.(*ast.CallExpr); ok && len(conv.Args) == 1 {
+				if tv, has := info.Types[conv.Fun]; has && tv.IsType() {
+					d = unparen(conv.Args[0])
+				}
+			}
+			if !sameVar(info, d, v) {
+				return false
+			}
+		default:
+			return false
+		}
+	}
+	return n >= 2
+}
+
+// guardGap: the guard examines some fields of a struct-typed local s (s.F op …) while the guarded value reads other fields of
+// the same s: returns a description of the unexamined fields ("" when the guard looks at s as a whole, or at every field read).
+func guardGap(info *types.Info, guard, value ast.Expr) string {
+	whole := map[types.Object]bool{}
+	tested := map[types.Object]map[string]bool{}
+	var walk func(n ast.Node, into map[types.Object]map[string]bool, wholeInto map[types.Object]bool)
+	walk = func(n ast.Node, into map[types.Object]map[string]bool, wholeInto map[types.Object]bool) {
+		ast.Inspect(n, func(m ast.Node) bool {
+			switch x := m.(type) {
+			case *ast.SelectorExpr:
+				if id, ok := unparen(x.X).(*ast.Ident); ok {
+					if v, ok := info.Uses[id].(*types.Var); ok && !v.IsField() {
+						if _, isStruct := v.Type().Underlying().(*types.Struct); isStruct {
+							if _, isFld := info.Uses[x.Sel].(*types.Var); isFld {
+								if into[v] == nil {
+									into[v] = map[string]bool{}
+								}
+								into[v][x.Sel.Name] = true
+								return false
+							}
+						}
+					}
+				}
+			case *ast.Ident:
+				if v, ok := info.Uses[x].(*types.Var); ok && !v.IsField() {
+					if _, isStruct := v.Type().Underlying().(*types.Struct); isStruct {
+						wholeInto[v] = true
+					}
+				}
+			}
+			return true
+		})
+	}
+	walk(guard, tested, whole)
+	read := map[types.Object]map[string]bool{}
+	walk(value, read, map[types.Object]bool{})
+	var missing []string
+	for v, fs := range tested {
+		if whole[v] {
+			continue
+		}
+		for f := range read[v] {
+			if !fs[f] {
+				missing = append(missing, v.Name()+"."+f)
+			}
+		}
+	}
+	sort.Strings(missing)
+	return strings.Join(missing, ", ")
 }
